@@ -175,6 +175,7 @@ func (g *Gen) execInstr(in ssa.Instruction, st State, reach string) {
 			g.havocAllHeaps(st)
 			return
 		}
+		g.guardedAccess(lv, true, st, reach, v.Pos())
 		g.lvStore(lv, st, g.val(v.Val).S)
 	case *ssa.MapUpdate:
 		g.execMapUpdate(v, st, reach)
@@ -302,6 +303,16 @@ func (g *Gen) execBinOp(v *ssa.BinOp, reach string) {
 	so := x.So
 	isBV := so.K == KBV
 	wrap := func(s string) string {
+		if so.K == KInt && g.ct != nil && g.ct.NoWrap && so.W >= 32 {
+			// prove that the exact result fits, then use it unwrapped
+			rng := "in64"
+			if so.W == 32 {
+				rng = "in32"
+			}
+			exact := g.define(v.Name()+".exact", SMath, s)
+			g.safety("overflow", "signed arithmetic does not overflow", v.Pos(), reach, app(rng, exact))
+			return exact
+		}
 		if so.K == KInt {
 			if so.W == 32 {
 				return app("wrap32", s)
@@ -480,9 +491,10 @@ func (g *Gen) execUnOp(v *ssa.UnOp, st State, reach string) {
 		if lv.kind == lvDeref {
 			g.safety("nil", "nil pointer dereference", v.Pos(), reach, not(app("=", lv.obj, "0")))
 		}
+		g.guardedAccess(lv, false, st, reach, v.Pos())
 		t := g.setVal(v, g.lvLoad(lv, st))
-		if lv.kind == lvGlobal && st[lv.heap] == "|"+lv.heap+"@in|" {
-			// a global not assigned by this function refers to objects that existed at entry
+		if cur, touched := st[lv.heap]; !touched || cur == "|"+lv.heap+"@in|" {
+			// a location not assigned by this function refers to objects that existed at entry
 			g.assumeTypeInv(t, State{})
 		} else {
 			g.assumeTypeInv(t, st)
@@ -668,6 +680,9 @@ func (g *Gen) checkFrame(st State, reach string, pos token.Pos) {
 		if strings.HasPrefix(n, "C.") || strings.HasPrefix(n, "L.") {
 			continue
 		}
+		if g.interfered[n] && !g.writtenByUs(n) {
+			continue // changed only by the monitor's interference model, never by this function
+		}
 		if g.writesOnlyFresh(n) {
 			g.frameStructural[n] = true
 			continue
@@ -754,4 +769,36 @@ func (g *Gen) storeStruct(v *ssa.Store, st State, reach string) bool {
 		g.stSet(st, hn, hso, app("store", h, base.S, app(val.So.Fields[i].Acc, val.S)))
 	}
 	return true
+}
+
+// guardedAccess: a field declared guarded by its owner's lock is read with the lock held
+// (any mode) and written with the write lock held. Objects allocated by this very call are
+// not yet shared and are exempt.
+func (g *Gen) guardedAccess(lv LV, write bool, st State, reach string, pos token.Pos) {
+	if lv.kind != lvField || !g.prog.guarded[lv.heap] {
+		return
+	}
+	if lv.base != nil && isFreshValue(lv.base, 0) {
+		return
+	}
+	h := g.stGet(st, "L.held", &Sort{K: KRaw, Name: "(Array Int Int)"})
+	cond := app(">=", app("select", h, lv.obj), "1")
+	what := "read"
+	if write {
+		cond = app("=", app("select", h, lv.obj), "2")
+		what = "write"
+	}
+	g.newObligation("lockset."+what, strings.TrimPrefix(lv.heap, "F."), what+" of guarded field "+strings.TrimPrefix(lv.heap, "F.")+" with its lock held", g.where(pos), app("=>", reach, cond))
+}
+
+// writtenByUs: the function itself has a recorded write to heap n (through a known base).
+func (g *Gen) writtenByUs(n string) bool {
+	for _, ws := range g.writeLog {
+		for _, w := range ws {
+			if (w.heap == n || w.heap == "*") && !(w.base == nil && g.interfered[n]) {
+				return true
+			}
+		}
+	}
+	return false
 }
